@@ -104,10 +104,14 @@ CLAIMED.update({
  'C09': dict(
     text='Machine-checked proofs (Lean 4): every planned stop command targets an instance where the process is listed running, belongs to the '
          'application and to the group of its stop_sequence, no group is empty; the group picked up has the highest planned sequence; the completion / '
-         'give-up table of a stop request. ' + CMD_TIE,
+         'give-up table of a stop request; and on the instance FSM model, for EVERY history of operations and every oracle (C09_one_order_then_final, '
+         'C09_order_with_final; kit Lemmas/InstOrd.lean): at most one restart / shutdown order is ever sent to the local Supervisor, it is sent in the very '
+         'step that reaches FINAL (which the Master only decides once the Stopper is idle, a Slave once its Master has left the ending state), FINAL is never '
+         'left and sends none. ' + CMD_TIE + ' The ending phase is also tied by a cluster stage: global lock-step of N real instances under restart / shutdown '
+         'requests, every order to a Supervisor compared at every step and judged (never two, only in FINAL).',
     note='Partial: the ordering over whole executions is judged on the implementation by the monitor (known finding: '
          'higher-sequence-already-stopping-not-waited); the restart/shutdown clauses (order reaches the Master, exactly one Supervisor order per instance, '
-         'FINAL after the Stopper is idle) are covered by the cluster lock-step of C01/C02 (orders compared at every step) but have no theorem yet; the whole-cluster '
+         'FINAL after the Stopper is idle) are proved on the instance model for the at-most-one / FINAL part (that EVERY live instance eventually gets its order is liveness: judged on the cluster stage, not proved); the whole-cluster '
          'stop (Stopper.stop_applications: decreasing application stop_sequence) is generated and judged, with theorems C09_stop_all_apps / C09_application_pickup_highest; the '
          'delivery of the Master\'s last publication while its own Supervisor goes down is a thread race outside the model. ' + CMD_TRUST,
     technique='Lean 4 proofs on the Stopper decision functions + lock-step correspondence + Lean monitor on implementation traces',
